@@ -13,6 +13,7 @@ mod c13;
 mod c14;
 mod c15;
 mod c17;
+mod c19;
 mod sp;
 mod case;
 mod gen;
@@ -96,6 +97,10 @@ fn main() {
                 "C17" => {
                     rep = Report::new("C17", "generator calls: leaf counts 2..60 (2..300), three shapes, three branch-length distributions, both length flags, several seeds (seedable-RNG hook); the random choices are read back from the real result and the model must rebuild the identical tree and tip numbering from them; a case is one call; non-trivial = at least three leaves");
                     c17::run(tier == "thorough", seed, &driver, &mut rep);
+                }
+                "C19" => {
+                    rep = Report::new("C19", "trees (every shape up to a node bound, random trees to 120 nodes, five arena layouts) with dyadic branch lengths (a few with a missing length); the model emits for every non-root node its parent, the exact angle of its branch as a rational fraction of a turn, and the length; the harness applies cos/sin and compares every coordinate within 1e-9 of the drawing's extent; a case is one tree; non-trivial = all lengths present and at least four nodes");
+                    c19::run(tier == "thorough", seed, &driver, &mut rep);
                 }
                 "C02" => {
                     rep = Report::new("C02", "strings fed to Tree::from_newick (corpus, every string up to a length bound over the token alphabet ( ) , ; : [ ] \" a 1 space, every short float lexeme, mutated valid Newick, random Unicode); a case is one string; non-trivial = contains at least one structural token");
